@@ -15,6 +15,9 @@ import (
 
 func init() {
 	register(&PropertyCheck{ID: "C09", Level: "other", Run: checkC09, Canaries: []Canary{
+		{Name: "sticky-error-overwritten-behind-a-stale-nil-test", Rule: "R9.0", Where: "getAny", Edits: []Edit{{"buffer.go", "\tif b.atEnd() {\n\t\treturn\n\t}\n\tvar propLen vbint\n\tb.get(&propLen)\n\tend := b.i + int(propLen)\n\tvar id Ident\n\tfor b.i < end {\n\t\tb.get(&id)\n\t\t// first failure stops the parsing\n\t\tif b.err != nil {\n\t\t\treturn\n\t\t}\n\t\tfield, hasField := fields[id]\n\t\tif hasField {\n\t\t\tb.get(field())\n\t\t\tcontinue\n\t\t}\n\t\tswitch id {\n\t\tcase UserProperty:\n\t\t\tvar p UserProp\n\t\t\tb.get(&p)\n\t\t\taddProp(p)\n\n\t\tcase SubscriptionID:\n\t\t\tvar sub vbint\n\t\t\tb.get(&sub)\n\t\t\tif b.addSubscriptionID != nil {\n\t\t\t\tb.addSubscriptionID(uint32(sub))\n\t\t\t}\n\n\t\tdefault:\n\t\t\tb.err = fmt.Errorf(\"unknown property id 0x%02x\", id)\n\t\t}\n\t}", "\tif b.err != nil || b.atEnd() {\n\t\treturn\n\t}\n\tvar propLen vbint\n\tb.get(&propLen)\n\tend := b.i + int(propLen)\n\tvar id Ident\n\tfor b.i < end {\n\t\tb.get(&id)\n\t\t// first failure stops the parsing\n\t\tif b.err != nil {\n\t\t\treturn\n\t\t}\n\t\tfield, hasField := fields[id]\n\t\tif hasField {\n\t\t\tb.get(field())\n\t\t\tcontinue\n\t\t}\n\t\tswitch id {\n\t\tcase UserProperty:\n\t\t\tvar p UserProp\n\t\t\tb.get(&p)\n\t\t\taddProp(p)\n\n\t\tcase SubscriptionID:\n\t\t\tvar sub vbint\n\t\t\tb.get(&sub)\n\t\t\tif b.addSubscriptionID != nil {\n\t\t\t\tb.addSubscriptionID(uint32(sub))\n\t\t\t}\n\n\t\tdefault:\n\t\t\tb.err = fmt.Errorf(\"unknown property id 0x%02x\", id)\n\t\t}\n\t}\n\t// the properties have to fill the announced length exactly\n\tb.err = b.endsAt(end)\n}\n\n// endsAt returns an error if the current offset is not the given one.\nfunc (b *buffer) endsAt(end int) error {\n\tif b.i != end {\n\t\treturn fmt.Errorf(\"property length mismatch, ends at %v, expected %v\", b.i, end)\n\t}\n\treturn nil"}}},
+		{Name: "delegating-decoder-accepts-a-short-body-undecoded", Rule: "R9.2", Where: "(*PubAck).UnmarshalBinary", Edits: []Edit{{"puback.go", "\tb := &buffer{data: data}\n\tb.get(&p.packetID)\n\t// no more data, see 3.4.2.1 PUBACK Reason Code\n\tif len(data) > 2 {\n\t\tb.get(&p.reasonCode)\n\t\tb.getAny(p.propertyMap(), p.appendUserProperty)", "\t// without a packet identifier there is no variable header to decode\n\tif len(data) < 2 {\n\t\treturn nil\n\t}\n\treturn unmarshalAck(data,\n\t\t&p.packetID, &p.reasonCode, p.propertyMap(), p.appendUserProperty,\n\t)\n}\n\n// unmarshalAck decodes the variable header shared by PUBACK, PUBREC,\n// PUBREL and PUBCOMP.\nfunc unmarshalAck(\n\tdata []byte, packetID *wuint16, reasonCode *wuint8,\n\tfields map[Ident]func() wireType, addProp func(UserProp),\n) error {\n\tb := &buffer{data: data}\n\tb.get(packetID)\n\t// no more data, see 3.4.2.1 PUBACK Reason Code\n\tif len(data) > 2 {\n\t\tb.get(reasonCode)\n\t\tb.getAny(fields, addProp)"}, {"pubcomp.go", "\tb := &buffer{data: data}\n\tb.get(&p.packetID)\n\t// no more data, see 3.4.2.1 PUBACK Reason Code\n\tif len(data) > 2 {\n\t\tb.get(&p.reasonCode)\n\t\tb.getAny(p.propertyMap(), p.appendUserProperty)\n\t}\n\treturn b.err", "\t// without a packet identifier there is no variable header to decode\n\tif len(data) < 2 {\n\t\treturn nil\n\t}\n\treturn unmarshalAck(data,\n\t\t&p.packetID, &p.reasonCode, p.propertyMap(), p.appendUserProperty,\n\t)"}, {"pubrec.go", "\tb := &buffer{data: data}\n\tb.get(&p.packetID)\n\t// no more data, see 3.4.2.1 PUBACK Reason Code\n\tif len(data) > 2 {\n\t\tb.get(&p.reasonCode)\n\t\tb.getAny(p.propertyMap(), p.appendUserProperty)\n\t}\n\treturn b.err", "\t// without a packet identifier there is no variable header to decode\n\tif len(data) < 2 {\n\t\treturn nil\n\t}\n\treturn unmarshalAck(data,\n\t\t&p.packetID, &p.reasonCode, p.propertyMap(), p.appendUserProperty,\n\t)"}, {"pubrel.go", "\tb := &buffer{data: data}\n\tb.get(&p.packetID)\n\t// no more data, see 3.4.2.1 PUBACK Reason Code\n\tif len(data) > 2 {\n\t\tb.get(&p.reasonCode)\n\t\tb.getAny(p.propertyMap(), p.appendUserProperty)\n\t}\n\treturn b.err", "\t// without a packet identifier there is no variable header to decode\n\tif len(data) < 2 {\n\t\treturn nil\n\t}\n\treturn unmarshalAck(data,\n\t\t&p.packetID, &p.reasonCode, p.propertyMap(), p.appendUserProperty,\n\t)"}}},
+		{Name: "get-does-nothing-when-optional-and-at-the-end", Rule: "R9.0", Where: "(*buffer).get", Edits: []Edit{{"buffer.go", "\taddSubscriptionID func(uint32) // used in e.g. Publish\n}\n\n// getAny reads all properties from the current offset starting with\n// the variable length.  fields map property identity codes to wire\n// type fields and the addProp func is used for each user property.\nfunc (b *buffer) getAny(fields map[Ident]func() wireType, addProp func(UserProp)) {\n\tif b.atEnd() {\n\t\treturn\n\t}\n\tvar propLen vbint\n\tb.get(&propLen)\n\tend := b.i + int(propLen)\n\tvar id Ident\n\tfor b.i < end {\n\t\tb.get(&id)\n\t\t// first failure stops the parsing\n\t\tif b.err != nil {\n\t\t\treturn\n\t\t}\n\t\tfield, hasField := fields[id]\n\t\tif hasField {\n\t\t\tb.get(field())\n\t\t\tcontinue\n\t\t}\n\t\tswitch id {\n\t\tcase UserProperty:\n\t\t\tvar p UserProp\n\t\t\tb.get(&p)\n\t\t\taddProp(p)\n\n\t\tcase SubscriptionID:\n\t\t\tvar sub vbint\n\t\t\tb.get(&sub)\n\t\t\tif b.addSubscriptionID != nil {\n\t\t\t\tb.addSubscriptionID(uint32(sub))\n\t\t\t}\n\n\t\tdefault:\n\t\t\tb.err = fmt.Errorf(\"unknown property id 0x%02x\", id)\n\t\t}\n\t}\n}\n\nfunc (b *buffer) get(v wireType) {", "\t// optional is set once the mandatory fields are read, what follows\n\t// may be left out, e.g. reason code and properties of a PUBACK\n\toptional bool\n\n\taddSubscriptionID func(uint32) // used in e.g. Publish\n}\n\n// getAny reads all properties from the current offset starting with\n// the variable length.  fields map property identity codes to wire\n// type fields and the addProp func is used for each user property.\nfunc (b *buffer) getAny(fields map[Ident]func() wireType, addProp func(UserProp)) {\n\tif b.atEnd() {\n\t\treturn\n\t}\n\tvar propLen vbint\n\tb.get(&propLen)\n\tend := b.i + int(propLen)\n\tvar id Ident\n\tfor b.i < end {\n\t\tb.get(&id)\n\t\t// first failure stops the parsing\n\t\tif b.err != nil {\n\t\t\treturn\n\t\t}\n\t\tfield, hasField := fields[id]\n\t\tif hasField {\n\t\t\tb.get(field())\n\t\t\tcontinue\n\t\t}\n\t\tswitch id {\n\t\tcase UserProperty:\n\t\t\tvar p UserProp\n\t\t\tb.get(&p)\n\t\t\taddProp(p)\n\n\t\tcase SubscriptionID:\n\t\t\tvar sub vbint\n\t\t\tb.get(&sub)\n\t\t\tif b.addSubscriptionID != nil {\n\t\t\t\tb.addSubscriptionID(uint32(sub))\n\t\t\t}\n\n\t\tdefault:\n\t\t\tb.err = fmt.Errorf(\"unknown property id 0x%02x\", id)\n\t\t}\n\t}\n}\n\nfunc (b *buffer) get(v wireType) {\n\tif b.optional && b.atEnd() {\n\t\t// nothing more to read, the fields keep their zero values\n\t\treturn\n\t}"}, {"puback.go", "\tif len(data) > 2 {\n\t\tb.get(&p.reasonCode)\n\t\tb.getAny(p.propertyMap(), p.appendUserProperty)\n\t}", "\tb.optional = true\n\tb.get(&p.reasonCode)\n\tb.getAny(p.propertyMap(), p.appendUserProperty)"}, {"pubcomp.go", "\tif len(data) > 2 {\n\t\tb.get(&p.reasonCode)\n\t\tb.getAny(p.propertyMap(), p.appendUserProperty)\n\t}", "\tb.optional = true\n\tb.get(&p.reasonCode)\n\tb.getAny(p.propertyMap(), p.appendUserProperty)"}, {"pubrec.go", "\tif len(data) > 2 {\n\t\tb.get(&p.reasonCode)\n\t\tb.getAny(p.propertyMap(), p.appendUserProperty)\n\t}", "\tb.optional = true\n\tb.get(&p.reasonCode)\n\tb.getAny(p.propertyMap(), p.appendUserProperty)"}, {"pubrel.go", "\tif len(data) > 2 {\n\t\tb.get(&p.reasonCode)\n\t\tb.getAny(p.propertyMap(), p.appendUserProperty)\n\t}", "\tb.optional = true\n\tb.get(&p.reasonCode)\n\tb.getAny(p.propertyMap(), p.appendUserProperty)"}}},
 		{Name: "filter-loop-with-a-keep-going-flag-and-a-helper", Silent: true, Edits: []Edit{{"subscribe.go", "\tfor {\n\t\tvar f TopicFilter\n\t\tb.get(&f.filter)\n\t\tb.get(&f.options)\n\t\tif b.err != nil {\n\t\t\tbreak\n\t\t}\n\t\tp.filters = append(p.filters, f)\n\t\tif b.i == len(data) {\n\t\t\tbreak\n\t\t}\n\t}\n\treturn b.err", "\t// the payload holds at least one topic filter\n\tfor more := true; more; more = !b.atEnd() {\n\t\tf, err := b.getTopicFilter()\n\t\tif err != nil {\n\t\t\treturn err\n\t\t}\n\t\tp.filters = append(p.filters, f)\n\t}\n\treturn nil\n}\n\n// getTopicFilter reads one filter and its subscription options.\nfunc (b *buffer) getTopicFilter() (f TopicFilter, err error) {\n\tb.get(&f.filter)\n\tb.get(&f.options)\n\treturn f, b.err"}, {"unsubscribe.go", "\tfor {\n\t\tvar f wstring\n\t\tb.get(&f)\n\t\tif b.err != nil {\n\t\t\tbreak\n\t\t}\n\t\tp.filters = append(p.filters, f)\n\t\tif b.i == len(data) {\n\t\t\tbreak\n\t\t}\n\t}\n\treturn b.err", "\t// the payload holds at least one topic filter\n\tfor more := true; more; more = !b.atEnd() {\n\t\tvar f wstring\n\t\tif b.get(&f); b.err != nil {\n\t\t\treturn b.err\n\t\t}\n\t\tp.filters = append(p.filters, f)\n\t}\n\treturn nil"}}},
 		{Name: "keep-going-loop-swallows-the-error", Rule: "R9.2", Where: "(*Subscribe).UnmarshalBinary", Edits: []Edit{{"subscribe.go", "\tfor {\n\t\tvar f TopicFilter\n\t\tb.get(&f.filter)\n\t\tb.get(&f.options)\n\t\tif b.err != nil {\n\t\t\tbreak\n\t\t}\n\t\tp.filters = append(p.filters, f)\n\t\tif b.i == len(data) {\n\t\t\tbreak\n\t\t}\n\t}\n\treturn b.err", "\t// the payload holds at least one topic filter\n\tfor more := true; more; more = !b.atEnd() {\n\t\tf, err := b.getTopicFilter()\n\t\tif err != nil {\n\t\t\tbreak\n\t\t}\n\t\tp.filters = append(p.filters, f)\n\t}\n\treturn nil\n}\n\n// getTopicFilter reads one filter and its subscription options.\nfunc (b *buffer) getTopicFilter() (f TopicFilter, err error) {\n\tb.get(&f.filter)\n\tb.get(&f.options)\n\treturn f, b.err"}, {"unsubscribe.go", "\tfor {\n\t\tvar f wstring\n\t\tb.get(&f)\n\t\tif b.err != nil {\n\t\t\tbreak\n\t\t}\n\t\tp.filters = append(p.filters, f)\n\t\tif b.i == len(data) {\n\t\t\tbreak\n\t\t}\n\t}\n\treturn b.err", "\t// the payload holds at least one topic filter\n\tfor more := true; more; more = !b.atEnd() {\n\t\tvar f wstring\n\t\tif b.get(&f); b.err != nil {\n\t\t\treturn b.err\n\t\t}\n\t\tp.filters = append(p.filters, f)\n\t}\n\treturn nil"}}},
 		{Name: "second-property-loop-ignores-the-identifier", Rule: "R9.5", Where: "Unsubscribe", Edits: []Edit{{"buffer.go", "\t}\n}\n", "\t}\n}\n\n// getUserProps reads a property section in which user properties are\n// the only ones defined, e.g. UNSUBSCRIBE. No field map is needed then.\nfunc (b *buffer) getUserProps(addProp func(UserProp)) {\n\tif b.atEnd() {\n\t\treturn\n\t}\n\tvar propLen vbint\n\tb.get(&propLen)\n\tend := b.i + int(propLen)\n\tfor b.i < end {\n\t\tvar id Ident\n\t\tvar p UserProp\n\t\tb.get(&id)\n\t\tb.get(&p)\n\t\t// first failure stops the parsing\n\t\tif b.err != nil {\n\t\t\treturn\n\t\t}\n\t\taddProp(p)\n\t}\n}\n"}, {"unsubscribe.go", "\tb.getAny(nil, p.appendUserProperty)", "\tb.getUserProps(p.appendUserProperty)"}}},
@@ -481,6 +484,29 @@ func checkStickyResult(p *Prog, c *Check, cur *Cursor) {
 			}
 		}
 		okAll := true
+		// does this function hand the frame on to a decoding function of the library on some path?
+		delegatesSomewhere := false
+		var delegateCalls []*ssa.Call
+		for _, b := range fn.Blocks {
+			if ret, ok := terminator(b).(*ssa.Return); ok && len(ret.Results) > 0 {
+				if call, isCall := ret.Results[0].(*ssa.Call); isCall {
+					if sc := call.Call.StaticCallee(); sc != nil && len(sc.Blocks) > 0 && p.inMQ(sc) {
+						delegatesSomewhere = true
+						delegateCalls = append(delegateCalls, call)
+					}
+				}
+			}
+		}
+		// a nil return behind the nil edge of such a call has decoded the frame
+		behindDelegate := func(b *ssa.BasicBlock) bool {
+			for _, dc := range delegateCalls {
+				_, isNil := errEdges(dc)
+				if dc.Block().Dominates(b) && dominatedByAny(isNil, b) {
+					return true
+				}
+			}
+			return false
+		}
 		for _, b := range fn.Blocks {
 			ret, ok := terminator(b).(*ssa.Return)
 			if !ok {
@@ -490,6 +516,13 @@ func checkStickyResult(p *Prog, c *Check, cur *Cursor) {
 			if len(curs) == 0 {
 				if isNilConst(r) && !usesParam(fn, 1) {
 					continue // the packet has no content to decode
+				}
+				if isNilConst(r) && delegatesSomewhere && !behindDelegate(b) {
+					// a decoder that hands the frame to a decoding function on one path and accepts it undecoded on
+					// another (`if len(data) < 2 { return nil }`): what that path skips is not examined at all
+					okAll = false
+					c.Bad("R9.2", cons, posOf(p, ret), "the decoder returns nil on a path that does not decode the frame at all, although another path hands it to "+"a decoding function: a frame cut short before its first field is accepted")
+					continue
 				}
 				if isNilConst(r) {
 					// content consumed without the sequential reader (e.g. kept verbatim): nothing can be cut inside a field
